@@ -3,6 +3,7 @@
 mod c22;
 mod c23;
 mod c24;
+mod c28;
 mod c30;
 mod gen;
 mod lang;
@@ -15,6 +16,7 @@ fn main() {
         "C22" => c22::run(&args),
         "C23" => c23::run(&args),
         "C24" => c24::run(&args),
+        "C28" => c28::run(&args),
         "C30" => c30::run(&args),
         p => mcx::machinery_error(&format!("pol-check does not serve {p}")),
     }
